@@ -252,8 +252,13 @@ def run_tracker(case):
                 index_of[id(m)] = i
                 await tx.send(m)
             await asyncio.sleep(case.get("tail", 0) / 1000)
-            for _ in range(5):   # let everything scheduled for this instant run
+            # let everything scheduled for this instant run: the tracker needs a few loop iterations per
+            # queued message (ready() task -> wait -> consume); stop early once every stimulus was consumed
+            n_stim = sum(1 for e in case["events"] if e["t"] in ("bat", "inv", "sp"))
+            for it in range(400):
                 await asyncio.sleep(0)
+                if it >= 10 and sum(1 for x in log if x[0] in ("bat", "inv", "sp")) == n_stim:
+                    break
             end = _now_us(loop)
             await tracker.stop()
             ts0_us = (ts0 - BASE) // timedelta(microseconds=1)
@@ -290,7 +295,8 @@ Open Scope string_scope.
 Open Scope Z_scope.
 (* case: (max_data_age, max_blocking_duration), initial last_msg_timestamp, the recorded
    boundary events with their clock readings, the notification sent while handling each *)
-Definition check (c : (Z * Z) * Z * list (Z * event) * list (option Z)) : bool :=
+Definition case_t : Type := ((Z * Z) * Z * list (Z * event) * list (option Z))%type.
+Definition check (c : case_t) : bool :=
   let '(cf, ts0, tr, exp) := c in
   let cfg := mkC (fst cf) min_blocking_duration_us (snd cf) in
   list_eqb optZ_eqb (out_codes (outputs cfg (init cfg ts0) tr)) exp.
@@ -300,8 +306,8 @@ Definition check (c : (Z * Z) * Z * list (Z * event) * list (option Z)) : bool :
 def tracker_term(case, obs):
     tr = "[" + "; ".join(c_event(case, x, obs) for x in obs["log"]) + "]"
     exp = clist([x[3] for x in obs["log"]], copt)
-    return (f"(({cZ(case['cfg']['max_age'] * 1000)}, {cZ(case['cfg']['dmax'] * 1000)}), {cZ(obs['ts0'])}, "
-            f"{tr}, {exp})")
+    return (f"((({cZ(case['cfg']['max_age'] * 1000)}, {cZ(case['cfg']['dmax'] * 1000)}), {cZ(obs['ts0'])}, "
+            f"{tr}, {exp}) : case_t)")
 
 
 # ----------------------------------------------------------------------------- independent bookkeeping (oracle)
@@ -327,7 +333,7 @@ def healthy(e, max_age):
 NAMES = {0: "NOT_WORKING", 1: "UNCERTAIN", 2: "WORKING"}
 
 
-def judge_tracker(case, obs):
+def judge_tracker(case, obs, stats_out=None):
     """The property judged on the recorded trace.  Bookkeeping is per stream: the latest
     delivered message, whether it was healthy when delivered, whether a data time-out was
     processed since; the blocking deadline follows the closed form of the statement
@@ -343,6 +349,7 @@ def judge_tracker(case, obs):
     k = 0            # consecutive effective failures since the last success / recovery
     until = None     # blocking deadline
     notes = []
+    stats = {"max_k": 0}
     for n, (kind, now, idx, sent) in enumerate(obs["log"]):
         prev = status
         evaluated = True
@@ -374,6 +381,7 @@ def judge_tracker(case, obs):
                 if until is None or until <= now:
                     k = 1 if until is None else k + 1
                     until = now + min(2 ** (k - 1) * dmin, dmax)
+                    stats["max_k"] = max(stats["max_k"], k)
         if sent is not None:
             if sent == status:
                 out.append({"what": f"only-on-change: {NAMES[sent]} notified twice in a row (log entry {n})", "finding": None})
@@ -426,6 +434,8 @@ def judge_tracker(case, obs):
                                         f"more than max data age ({ma} us) earlier", "finding": None})
                 elif not healthy(ev[sent_before[-1]], case["cfg"]["max_age"])[0]:
                     out.append({"what": f"safe: {NAMES[st]} just before t={t} us although the last {s} message sent (#{sent_before[-1]}) is disqualifying", "finding": None})
+    if stats_out is not None:
+        stats_out.update(stats)
     return out
 
 
@@ -473,15 +483,64 @@ def gen_sp(rng):
     return {"t": "sp", "succ": True, "fail": True}
 
 
+def gen_ladder(rng, maxlen=40):
+    """Back-off focused word: data keep flowing, failures arrive when the previous block has
+    (just) expired, probes (healthy data) are placed around the deadline the statement
+    predicts for the k-th consecutive failure -- 3/4 d, d-1, d, d+1 -- so that a wrong
+    growth law (or a missing reset) changes a notification."""
+    ma = rng.choice([10000, 30000, 30000, 60000])
+    dmax = rng.choice([1000, 3000, 8000, 30000, 30000, 30000])
+    n = rng.randint(6, maxlen)
+    ev = [{**gen_bat(rng, ma), "gap": 0, "age": 0}, {**gen_inv(rng, ma), "gap": rng.choice([0, 1, 10]), "age": 0}]
+    k = 0
+    which = 0
+    while len(ev) < n:
+        r = rng.random()
+        if r < 0.70:
+            k += 1
+            d = min(2 ** (k - 1) * DMIN_MS, dmax)
+            ev.append({"t": "sp", "succ": False, "fail": True, "gap": rng.choice([0, 1, 1, 500])})
+            spent = 0
+            for _ in range(rng.choice([1, 1, 2, 2, 3])):
+                off = rng.choice([d - 1, d, d + 1, (3 * d) // 4, d // 2, d // 2 + 1])
+                if off < spent:
+                    continue
+                mk = gen_bat if which == 0 else gen_inv
+                which = 1 - which
+                ev.append({**mk(rng, ma), "age": 0, "gap": off - spent})
+                spent = off
+            if spent < d and rng.random() < 0.85:       # let the block expire before the next failure
+                mk = gen_bat if which == 0 else gen_inv
+                which = 1 - which
+                ev.append({**mk(rng, ma), "age": 0, "gap": d - spent + rng.choice([0, 0, 1])})
+        elif r < 0.78:
+            ev.append({"t": "sp", "succ": True, "fail": rng.random() < 0.2, "gap": rng.choice([0, 1, 300])})
+            k = 0
+        elif r < 0.86:   # a fault and the recovery: resets the back-off
+            if rng.random() < 0.5:
+                ev.append({**gen_bat(rng, ma, rng.choice(["stale", "state", "relay", "critical", "capacity"])), "gap": rng.choice([1, 100])})
+                ev.append({**gen_bat(rng, ma), "age": 0, "gap": rng.choice([1, 100])})
+            else:
+                ev.append({**gen_inv(rng, ma, rng.choice(["stale", "state", "critical"])), "gap": rng.choice([1, 100])})
+                ev.append({**gen_inv(rng, ma), "age": 0, "gap": rng.choice([1, 100])})
+            k = 0
+        elif r < 0.93:
+            ev.append({"t": "sp", "succ": False, "fail": False, "gap": rng.choice([0, 1, 300])})
+        else:
+            ev.append({**gen_bat(rng, ma), "age": 0, "gap": rng.choice([1, 200])})
+            ev.append({**gen_inv(rng, ma), "age": 0, "gap": rng.choice([0, 1, 200])})
+    return {"cfg": {"max_age": ma, "dmax": dmax}, "events": ev[:maxlen], "tail": rng.choice([0, 1, ma + 1])}
+
+
 def gen_case(rng, maxlen=40):
+    if rng.random() < 0.35:
+        return gen_ladder(rng, maxlen)
     ma = rng.choice([2000, 5000, 10000, 10000, 30000])
     dmax = rng.choice([1000, 3000, 8000, 30000, 30000])
     ahead = rng.random() < 0.06
     n = rng.randint(1, maxlen)
-    focus = rng.random() < 0.45     # back-off focused word: data keep flowing, failures spaced around the deadlines
     p_fault = rng.choice([0.0, 0.1, 0.25])
     ev = []
-    d = DMIN_MS
     small = [0, 0, 1, 50, 200, 500, 999, 1000, 1001]
     if rng.random() < 0.8:   # usually start with a healthy pair so that interesting states are reached
         ev.append({**gen_bat(rng, ma), "gap": rng.choice(small)})
@@ -490,20 +549,14 @@ def gen_case(rng, maxlen=40):
             ev.reverse()
     while len(ev) < n:
         r = rng.random()
-        if focus:
-            gap = rng.choice([d - 1, d, d + 1, d + 500, 2 * d, 10, 300, 1000])
-            d = min(2 * d, max(dmax, DMIN_MS)) if rng.random() < 0.6 else d
-            if rng.random() < 0.12:
-                d = DMIN_MS
-        else:
-            gap = rng.choice(small + [2000, 4000, ma - 1, ma, ma + 1, 2 * ma + 500, ma // 2])
+        gap = rng.choice(small + [2000, 4000, ma - 1, ma, ma + 1, 2 * ma + 500, ma // 2])
         fault_b = rng.choice(["stale", "state", "relay", "critical", "capacity"]) if rng.random() < p_fault else None
         fault_i = rng.choice(["stale", "state", "critical"]) if rng.random() < p_fault else None
-        if r < (0.22 if focus else 0.32):
+        if r < 0.32:
             e = gen_bat(rng, ma, fault_b, ahead and rng.random() < 0.5)
-        elif r < (0.44 if focus else 0.64):
+        elif r < 0.64:
             e = gen_inv(rng, ma, fault_i, ahead and rng.random() < 0.5)
-        elif r < (0.95 if focus else 0.88):
+        elif r < 0.88:
             e = gen_sp(rng)
         else:
             e = {"t": "idle"}
@@ -569,6 +622,20 @@ def boundary_cases():
     return out
 
 
+def exhaustive_words(maxlen):
+    """Every word of length <= maxlen over a 7-letter alphabet, 600 ms apart, max age 2 s,
+    d_max 2 s: healthy / faulty battery message, healthy / faulty inverter message, failed /
+    succeeded set-power, silence of max age + 1 ms."""
+    import itertools
+    letters = [
+        lambda: _b(600), lambda: _b(600, relay="OPENED"), lambda: _i(600), lambda: _i(600, errors=["CRITICAL"]),
+        lambda: _f(600), lambda: _s(600), lambda: {"t": "idle", "gap": 2001},
+    ]
+    for n in range(1, maxlen + 1):
+        for w in itertools.product(range(len(letters)), repeat=n):
+            yield {"cfg": {"max_age": 2000, "dmax": 2000}, "events": [letters[k]() for k in w], "tail": 0}
+
+
 def shrink_case(case):
     ev = case["events"]
     if case.get("send_delays"):
@@ -605,6 +672,8 @@ class TrackerStream(Stream):
         n = self.n_quick if tier == "quick" else self.n_thorough
         for _ in range(n):
             yield gen_case(rng, 40 if rng.random() < 0.6 else 12)
+        if tier == "thorough":
+            yield from exhaustive_words(5)
 
     def run_impl(self, case):
         return run_tracker(case)
@@ -658,6 +727,9 @@ class TrackerStream(Stream):
         times = [x[1] for x in log]
         if len(times) != len(set(times)):
             out.append("coincident_events")
+        stats = {}
+        judge_tracker(case, obs, stats)
+        out.append(f"backoff_depth={min(stats['max_k'], 6)}")
         return out
 
 
@@ -675,7 +747,8 @@ Fixpoint brun (c : cfg) (b : blocking) (ops : list (Z * Z)) : blocking * list Z 
                         else (b, if is_blocked now b then 1 else 0) in
       let '(b2, rs) := brun c b1 r in (b2, res :: rs)
   end.
-Definition check (x : (Z * Z) * list (Z * Z) * list Z * (Z * option Z)) : bool :=
+Definition case_t : Type := ((Z * Z) * list (Z * Z) * list Z * (Z * option Z))%type.
+Definition check (x : case_t) : bool :=
   let '(cf, ops, exp, fin) := x in
   let c := mkC 0 (fst cf) (snd cf) in
   let '(b, rs) := brun c (blocking_init c) ops in
@@ -761,8 +834,8 @@ class BlockingStream(Stream):
 
     def to_coq(self, case, obs):
         ops = "[" + "; ".join(f"({op}, {cZ(t * 1000)})" for op, t in case["ops"]) + "]"
-        return (f"(({cZ(case['dmin'] * 1000)}, {cZ(case['dmax'] * 1000)}), {ops}, {clist(obs['res'])}, "
-                f"({cZ(obs['last'])}, {copt(obs['until'])}))")
+        return (f"((({cZ(case['dmin'] * 1000)}, {cZ(case['dmax'] * 1000)}), {ops}, {clist(obs['res'])}, "
+                f"({cZ(obs['last'])}, {copt(obs['until'])})) : case_t)")
 
     def oracle(self, case, obs):
         return judge_blocking(case, obs)
@@ -800,7 +873,8 @@ Fixpoint prun (p : pool) (ms : list (Z * Z)) : list (list Z * list Z) :=
   | (id, v) :: r => let q := pool_update p id (st_of v) in
                     (sort_z (p_working q), sort_z (p_uncertain q)) :: prun q r
   end.
-Definition check (x : list (Z * Z) * list (list Z * list Z) * list (list Z * list Z)) : bool :=
+Definition case_t : Type := (list (Z * Z) * list (list Z * list Z) * list (list Z * list Z))%type.
+Definition check (x : case_t) : bool :=
   let '(ms, snaps, qs) := x in
   list_eqb (pair_eqb listZ_eqb listZ_eqb) (prun pool_init ms) snaps &&
   let fin := pool_run pool_init (map (fun m => (fst m, st_of (snd m))) ms) in
@@ -888,7 +962,7 @@ class PoolStream(Stream):
         ms = "[" + "; ".join(f"({cZ(c)}, {cZ(v)})" for c, v in case["msgs"]) + "]"
         snaps = "[" + "; ".join(f"({clist(w)}, {clist(u)})" for w, u in obs["snaps"]) + "]"
         qs = "[" + "; ".join(f"({clist(q)}, {clist(r)})" for q, r in zip(case["queries"], obs["queries"])) + "]"
-        return f"({ms}, {snaps}, {qs})"
+        return f"(({ms}, {snaps}, {qs}) : case_t)"
 
     def oracle(self, case, obs):
         return judge_pool(case, obs)
